@@ -628,7 +628,11 @@ func (sp *subProcess) NextAction(ctx context.Context, flow Flow) chan IAction {
 	}
 
 	response := make(chan IAction, 1)
-	sp.mch <- nextActionMessage{response: response}
+	// the node's goroutine stops reading its inbox when the context is done
+	select {
+	case sp.mch <- nextActionMessage{response: response}:
+	case <-ctx.Done():
+	}
 	return response
 }
 
